@@ -50,6 +50,12 @@ pub enum LinkFault {
     /// signature scheme the library does not implement, and a link file named after *that* key's id carries a signature
     /// entry labelled with it (even n: the genuine signature bytes of the real key; odd n: junk)
     UnknownSchemeFunctionary(u8),
+    /// the entry in the link directory is a symbolic link named after *another* key's id prefix (even n: another
+    /// functionary of the table, odd n: a stranger); it points to the validly signed document, stored elsewhere
+    /// under its proper name
+    SymlinkUnderForeignPrefix(u8),
+    /// the entry is a symbolic link under the proper name pointing to the document stored elsewhere (harmless)
+    SymlinkUnderOwnPrefix,
 }
 
 #[derive(Clone, Debug, Serialize, Deserialize)]
@@ -89,6 +95,14 @@ pub fn apply_faults(spec: &Spec) -> (World, Option<serde_json::Value>) {
             LinkFault::Remove => {
                 w.links.remove(i);
             }
+            LinkFault::SymlinkUnderForeignPrefix(n) => {
+                let foreign = if n % 2 == 0 { pick(&others, *n).unwrap_or_else(|| stranger(*n)) } else { stranger(n.wrapping_add(90)) };
+                w.links[i].name_field = Some(prefix8(&foreign));
+                w.links[i].symlink_store = true;
+            }
+            LinkFault::SymlinkUnderOwnPrefix => {
+                w.links[i].symlink_store = true;
+            }
             LinkFault::FiledUnderShortenedPrefix(n) => {
                 let keep = (*n % 8) as usize;
                 let id = key_id_str(&this_key);
@@ -106,18 +120,18 @@ pub fn apply_faults(spec: &Spec) -> (World, Option<serde_json::Value>) {
             }
             LinkFault::ByUnauthorizedFunctionary(n) => {
                 if let Some(u) = pick(&unauthorized, *n) {
-                    w.links[i] = LinkFile { step: step.name.clone(), filed_under: u.clone(), name_field: None, body: Body::Link { link: base_link, sigs: vec![SigEntry::good(&u)], tamper: None } };
+                    w.links[i] = LinkFile { step: step.name.clone(), filed_under: u.clone(), name_field: None, symlink_store: false, body: Body::Link { link: base_link, sigs: vec![SigEntry::good(&u)], tamper: None } };
                 }
             }
             LinkFault::ByKeyMissingFromTable(n) => {
                 let s = stranger(*n);
                 let sidx = *si as usize % nsteps;
                 w.layout.steps[sidx].pubkeys.push(s.clone());
-                w.links[i] = LinkFile { step: step.name.clone(), filed_under: s.clone(), name_field: None, body: Body::Link { link: base_link, sigs: vec![SigEntry::good(&s)], tamper: None } };
+                w.links[i] = LinkFile { step: step.name.clone(), filed_under: s.clone(), name_field: None, symlink_store: false, body: Body::Link { link: base_link, sigs: vec![SigEntry::good(&s)], tamper: None } };
             }
             LinkFault::ByStranger(n) => {
                 let s = stranger(n.wrapping_add(20));
-                w.links[i] = LinkFile { step: step.name.clone(), filed_under: s.clone(), name_field: None, body: Body::Link { link: base_link, sigs: vec![SigEntry::good(&s)], tamper: None } };
+                w.links[i] = LinkFile { step: step.name.clone(), filed_under: s.clone(), name_field: None, symlink_store: false, body: Body::Link { link: base_link, sigs: vec![SigEntry::good(&s)], tamper: None } };
             }
             LinkFault::MultiSigned(n) => {
                 if let (Some(o), Body::Link { sigs, .. }) = (pick(&others, *n), &mut w.links[i].body) {
@@ -163,7 +177,7 @@ pub fn apply_faults(spec: &Spec) -> (World, Option<serde_json::Value>) {
                     tamper: None,
                     links: vec![],
                 };
-                w.links[i] = LinkFile { step: step.name.clone(), filed_under: signer, name_field: None, body: Body::Sub { world: Box::new(inner), placement: Placement::Proper } };
+                w.links[i] = LinkFile { step: step.name.clone(), filed_under: signer, name_field: None, symlink_store: false, body: Body::Sub { world: Box::new(inner), placement: Placement::Proper } };
             }
             LinkFault::DuplicateStepOtherFunctionary(n) => {
                 // a functionary of the key table that has no link file for this step name
@@ -272,6 +286,8 @@ fn fault_strategy() -> BoxedStrategy<LinkFault> {
         2 => any::<u8>().prop_map(LinkFault::DuplicateStepOtherFunctionary),
         2 => any::<u8>().prop_map(LinkFault::FiledUnderShortenedPrefix),
         2 => any::<u8>().prop_map(LinkFault::UnknownSchemeFunctionary),
+        2 => any::<u8>().prop_map(LinkFault::SymlinkUnderForeignPrefix),
+        1 => Just(LinkFault::SymlinkUnderOwnPrefix),
     ]
     .boxed()
 }
@@ -285,7 +301,7 @@ impl Property for C02 {
         "Generated: valid worlds with 1-4 steps, thresholds 0-3, functionary pool of 2-5 keys, every assignment of keys to step.pubkeys, then \
          1-3 faults on chosen (step, link) files: removed; signed by another functionary but filed under this key's prefix; tampered after \
          signing; replaced by a valid link of a functionary authorised only for other steps; of a key authorised in the step but absent \
-         from the key table; of a stranger; filed under a name whose id field is dots plus only the first 0-7 characters of the signer's id; replaced by a link attributed to the same key material declared (in key table and pubkeys) with an unimplemented signature scheme; multiply signed; signature by another key labelled with this key's id; corrupted signature; \
+         from the key table; of a stranger; filed under a name whose id field is dots plus only the first 0-7 characters of the signer's id; entered as a symbolic link named after another key's prefix that points to the properly named document elsewhere; replaced by a link attributed to the same key material declared (in key table and pubkeys) with an unimplemented signature scheme; multiply signed; signature by another key labelled with this key's id; corrupted signature; \
          garbage; aliased key-table entry (table files key B under id(A), B signs labelled id(A)); evidence replaced by a valid \
          sub-layout of a functionary who is not authorised for the step / missing from the key table. Enumerated: 2 steps x 2 keys, every \
          (step,key) file in {absent, valid by that key, signed by the other key under this name, tampered, garbage}: 625 populations. \
@@ -333,7 +349,7 @@ impl Property for C02 {
                         3 => Body::Link { link, sigs: vec![SigEntry::good(key)], tamper: Some(TreeEdit { site: 40000, kind: 0, arg: "x".into() }) },
                         _ => Body::Garbage("{}".into()),
                     };
-                    links.push(LinkFile { step: step.into(), filed_under: key.clone(), name_field: None, body });
+                    links.push(LinkFile { step: step.into(), filed_under: key.clone(), name_field: None, symlink_store: false, body });
                 }
                 out.push(Spec { world: World { layout: layout.clone(), sigs: vec![SigEntry::good(&owner)], tamper: None, links }, owners: vec![owner.clone()], faults: vec![] });
             }
@@ -410,7 +426,7 @@ impl Property for C02 {
             let (cr, _, _) = if spec.faults.is_empty() {
                 // enumerated population: control = both files valid
                 let mut c = w.clone();
-                c.links = w.layout.steps.iter().map(|s| LinkFile { step: s.name.clone(), filed_under: s.pubkeys[0].clone(), name_field: None, body: Body::Link { link: LinkSpec { name: s.name.clone(), ..Default::default() }, sigs: vec![SigEntry::good(&s.pubkeys[0])], tamper: None } }).collect();
+                c.links = w.layout.steps.iter().map(|s| LinkFile { step: s.name.clone(), filed_under: s.pubkeys[0].clone(), name_field: None, symlink_store: false, body: Body::Link { link: LinkSpec { name: s.name.clone(), ..Default::default() }, sigs: vec![SigEntry::good(&s.pubkeys[0])], tamper: None } }).collect();
                 run_world(&c, &spec.owners, &cdir, now)
             } else {
                 run_world(&spec.world, &spec.owners, &cdir, now)
